@@ -13,6 +13,18 @@
 //!   increase, every vertex within the allowance of the curve, every curve point within the
 //!   allowance of the polyline (exact chord-deviation certificate, then dense sampling).
 //! allowance = tolerance·(1+SLACK) + ROUND·eps·magnitude.
+//!
+//! Family `chk_flat` (case ids after all others): PROOF-GRADE verdicts. The segments emitted by the
+//! real `for_each_flattened_with_t` (quadratic; cubic: lyon's own quadratic pieces and the segments of
+//! each, checked to be bit for bit what the cubic entry point emits) go, as IEEE bit patterns, to the
+//! verified exact checker `Lyon.FlatChk` (rationals; Props/C09c.lean `chk_flat_sound_rat`,
+//! `chk_flat_cubic_sound_rat`, `chk_flat_violation_sound_rat`). `ok` = every curve point PROVED within
+//! 1·tol + eps of the polyline; `skip chk_flat:<kind>:k<=…` = only a weaker factor proved, no
+//! violation proved; `fail <kind>.flatten/certified-tolerance` = a concrete curve point PROVED farther
+//! than tol + eps from every segment; inputs the chord certificate leaves open go through the
+//! convex-hull certificate (`chkHull`: control points of `split_range` sub-ranges near one emitted
+//! segment; cubics directly on the cubic). The same verdict is computed here in exact dyadic arithmetic
+//! (`data/c09_exact.rs`) for the TAG/ORCL lines; the Lean checker answers MISMATCH if it disagrees.
 
 use lyon_geom::euclid::Angle;
 use lyon_geom::{point, vector, Arc, CubicBezierSegment, LineSegment, Point, QuadraticBezierSegment, Segment};
@@ -21,6 +33,9 @@ use lyon_path::{Path, PathEvent};
 use std::ops::Range;
 use vh::fl::Gen;
 use vh::{CaseOut, Ctx, Fl, Oracle, Out, Rng};
+
+#[path = "../data/c09_exact.rs"]
+mod exact;
 
 type P2 = (f64, f64);
 
@@ -1282,6 +1297,222 @@ fn guard_cases(ctx: &mut Ctx) {
     }
 }
 
+
+// ---------------------------------------------------------------------------------------------
+// Family `chk_flat`: PROOF-GRADE per-input verdicts (translation validation with the verified
+// exact checker `Lyon.FlatChk`, Props/C09c.lean `chk_flat_sound_rat` / `chk_flat_cubic_sound_rat` /
+// `chk_flat_violation_sound_rat`). The CHECK line hands the curve, the tolerance and the segments
+// the REAL `for_each_flattened_with_t` emitted to the Lean checker (exact rationals); the verdict is
+// also computed here with exact dyadic arithmetic (`exact::verdict_*`) so that it can be reported in
+// the TAG / ORCL lines (evidence); the Lean checker answers MISMATCH if its verdict differs.
+//   ok                                   every curve point PROVED within 1·tol + eps of the polyline
+//   skip chk_flat:<kind>:k<=1.11 …        only within k·tol + eps proved, no violation proved
+//   fail <kind>.flatten/certified-tolerance <class>   a concrete curve point PROVED farther than
+//                                        tol + eps from every emitted segment
+// eps = f·S::EPS·(largest |coordinate| of the control points), f the smallest of 1, 2, 4, …, 64 that
+// works: the rounding of the emitted vertices (`sample(t)` in floats; cubics: also of lyon's float
+// sub-quadratics), stated to the checker and verified by it exactly (`flatVtxSq ≤ eps²`).
+const CHK_MAX_SEGS: usize = 4000;
+
+fn px<S: Fl>(p: Point<S>) -> exact::Pt {
+    exact::Pt::of(p.x.f(), p.y.f())
+}
+fn dx<S: Fl>(x: S) -> exact::Dy {
+    exact::Dy::from_f64(x.f())
+}
+fn segs_x<S: Fl>(cbt: &CbT<S>) -> Vec<exact::SegX> {
+    (0..cbt.tos.len()).map(|i| exact::SegX { a: px(cbt.froms[i]), b: px(cbt.tos[i]), t0: dx(cbt.ranges[i].0), t1: dx(cbt.ranges[i].1) }).collect()
+}
+fn put_segs<S: Fl>(o: &mut Out, cbt: &CbT<S>) {
+    o.u(cbt.tos.len() as u64);
+    for i in 0..cbt.tos.len() {
+        o.p(cbt.froms[i]).p(cbt.tos[i]).f(cbt.ranges[i].0).f(cbt.ranges[i].1);
+    }
+}
+fn cbt_finite<S: Fl>(cbt: &CbT<S>) -> bool {
+    (0..cbt.tos.len()).all(|i| cbt.froms[i].x.finite() && cbt.froms[i].y.finite() && cbt.tos[i].x.finite() && cbt.tos[i].y.finite() && cbt.ranges[i].0.finite() && cbt.ranges[i].1.finite())
+}
+
+/// what the gen closure hands to the run closure
+struct ChkOut {
+    tag: String,
+    imp: String,
+    orcl: vh::Verdict,
+    check: Option<Out>,
+}
+
+fn chk_result(kind: &str, v: &exact::Verdict, class: &str, nsegs: usize, check: Out) -> ChkOut {
+    let vs = v.string();
+    let orcl = if !v.structure {
+        vh::Verdict::fail(&format!("{}.flatten/certified-structure", kind), "generic", vs.clone())
+    } else if let Some((c, j)) = v.viol {
+        vh::Verdict::fail(
+            &format!("{}.flatten/certified-tolerance", kind),
+            class,
+            format!("exact checker: the curve point at {}/8 of the range of chord {} is farther than tol+eps from every emitted segment ({} segments) {}", j, c, nsegs, vs),
+        )
+    } else if !v.vtx && v.hull.is_none() {
+        vh::Verdict::Skip(format!("chk_flat:{}:vertex-eps {}", kind, vs))
+    } else if v.final_idx() == 0 {
+        vh::Verdict::Ok
+    } else {
+        vh::Verdict::Skip(format!("chk_flat:{}:{} {}", kind, v.bucket(), vs))
+    };
+    ChkOut { tag: format!("chk_flat {} {}", kind, v.bucket()), imp: format!("verdict {}", vs), orcl, check: Some(check) }
+}
+
+fn chk_skip(kind: &str, why: &str) -> ChkOut {
+    ChkOut { tag: format!("chk_flat {} {}", kind, why), imp: format!("none {}", why), orcl: vh::Verdict::Skip(format!("chk_flat:{}:{}", kind, why)), check: None }
+}
+
+fn chk_quad<S: Fl>(q: QuadraticBezierSegment<S>, tol: S) -> ChkOut {
+    let r = vh::guarded(|| {
+        let mut cbt = CbT::new();
+        q.for_each_flattened_with_t(tol, &mut |s, r| cbt.push(s, r));
+        cbt
+    });
+    let cbt = match r {
+        Some(c) => c,
+        None => return chk_skip("quad", "panic"),
+    };
+    if !cbt_finite(&cbt) {
+        return chk_skip("quad", "non-finite");
+    }
+    if cbt.tos.len() > CHK_MAX_SEGS {
+        return chk_skip("quad", "too-many-segments");
+    }
+    let c = q64(&q);
+    let qx = exact::QuadX { a: px(q.from), c: px(q.ctrl), b: px(q.to) };
+    let l = segs_x(&cbt);
+    let (eps, _) = exact::choose_eps(&exact::max_vtx_sq(&qx, &l), S::EPS * c.mag());
+    let v = exact::verdict_quad(&qx, &dx(tol), &exact::Dy::from_f64(eps), &l);
+    let near = overshoot_pred(&c, tol.f()) && rel_cross(&c) <= 64.0 * S::EPS;
+    // a violation of an input that is PROVED within 1.15·tol + eps is the approximate count
+    // (finding approx-integral) whatever else the input looks like; otherwise the witness predicates
+    let class = if v.k_idx <= 2 {
+        "approx-integral"
+    } else if collinear_pred(&q, tol.f()) {
+        "collinear-overshoot-nan-count"
+    } else if near {
+        "near-collinear-cancellation"
+    } else if overshoot_pred(&c, tol.f()) {
+        "ctrl-overshoot"
+    } else if sharp_pred(&c, tol.f()) {
+        "sharp-turn"
+    } else {
+        "generic"
+    };
+    let mut o = Out::new();
+    o.t("q").t(&v.string()).t(class).f(tol).f(eps).p(q.from).p(q.ctrl).p(q.to);
+    put_segs(&mut o, &cbt);
+    chk_result("quad", &v, class, l.len(), o)
+}
+
+fn chk_cubic<S: Fl>(c: CubicBezierSegment<S>, tol: S) -> ChkOut {
+    let tol4 = tol * <S as lyon_geom::Scalar>::value(0.4);
+    let tol6 = tol * <S as lyon_geom::Scalar>::value(0.6);
+    let r = vh::guarded(|| {
+        // lyon's own pieces and the flattening of each (what for_each_flattened_with_t does) …
+        let mut pieces: Vec<(QuadraticBezierSegment<S>, S, S, CbT<S>)> = vec![];
+        c.for_each_quadratic_bezier_with_t(tol4, &mut |q, r| {
+            let mut qs = CbT::new();
+            q.for_each_flattened_with_t(tol6, &mut |s, rr| qs.push(s, rr));
+            pieces.push((*q, r.start, r.end, qs));
+        });
+        // … and the entry point itself
+        let mut cbt = CbT::new();
+        c.for_each_flattened_with_t(tol, &mut |s, r| cbt.push(s, r));
+        (pieces, cbt)
+    });
+    let (pieces, cbt) = match r {
+        Some(x) => x,
+        None => return chk_skip("cubic", "panic"),
+    };
+    let total: usize = pieces.iter().map(|p| p.3.tos.len()).sum();
+    let fin = cbt_finite(&cbt) && pieces.iter().all(|p| p.1.finite() && p.2.finite() && cbt_finite(&p.3) && [p.0.from, p.0.ctrl, p.0.to].iter().all(|z| z.x.finite() && z.y.finite()));
+    if !fin {
+        return chk_skip("cubic", "non-finite");
+    }
+    if total > CHK_MAX_SEGS {
+        return chk_skip("cubic", "too-many-segments");
+    }
+    // glue: the segments handed to the checker ARE the entry point's segments, in order, bit for bit
+    let mut glue = total == cbt.tos.len();
+    if glue {
+        let mut i = 0;
+        for p in &pieces {
+            for j in 0..p.3.tos.len() {
+                glue = glue && p.3.froms[j] == cbt.froms[i] && p.3.tos[j] == cbt.tos[i];
+                i += 1;
+            }
+        }
+    }
+    if !glue {
+        return ChkOut {
+            tag: "chk_flat cubic glue".to_string(),
+            imp: "none glue".to_string(),
+            orcl: vh::Verdict::fail("cubic.flatten/certified-glue", "generic", format!("for_each_flattened_with_t emits {} segments, its pieces {} (or different points)", cbt.tos.len(), total)),
+            check: None,
+        };
+    }
+    let k = k64(&c);
+    let cx = exact::CubicX { a: px(c.from), c1: px(c.ctrl1), c2: px(c.ctrl2), b: px(c.to) };
+    let ps: Vec<exact::PieceX> =
+        pieces.iter().map(|p| exact::PieceX { q: exact::QuadX { a: px(p.0.from), c: px(p.0.ctrl), b: px(p.0.to) }, t0: dx(p.1), t1: dx(p.2), l: segs_x(&p.3) }).collect();
+    let (eps, _) = exact::choose_eps(&exact::max_vtx_sq_cubic(&cx, &ps), S::EPS * k.mag());
+    let v = exact::verdict_cubic(&cx, &dx(tol), &dx(tol6), &dx(tol4), &exact::Dy::from_f64(eps), &ps, &segs_x(&cbt));
+    let (coll, near, over, sharp, _) = cubic_preds(&c, tol);
+    let class = if v.k_idx <= 2 {
+        "approx-integral"
+    } else if coll {
+        "collinear-overshoot-nan-count"
+    } else if near {
+        "near-collinear-cancellation"
+    } else if over {
+        "ctrl-overshoot"
+    } else if sharp {
+        "sharp-turn"
+    } else {
+        "generic"
+    };
+    let mut o = Out::new();
+    o.t("c").t(&v.string()).t(class).f(tol).f(tol6).f(tol4).f(eps).p(c.from).p(c.ctrl1).p(c.ctrl2).p(c.to);
+    o.u(pieces.len() as u64);
+    for p in &pieces {
+        o.p(p.0.from).p(p.0.ctrl).p(p.0.to).f(p.1).f(p.2);
+        put_segs(&mut o, &p.3);
+    }
+    // the entry point's own segments with their ranges on the cubic (convex-hull certificate)
+    put_segs(&mut o, &cbt);
+    chk_result("cubic", &v, class, total, o)
+}
+
+fn chk_case<S: Fl>(ctx: &mut Ctx, cubic: bool) {
+    ctx.case_check("chk_flat", |rng| {
+        let sh = pick_shape(rng);
+        let mut args = Out::new();
+        let res = if cubic {
+            let pts: Vec<Point<S>> = cubic_points(rng, sh);
+            let c = CubicBezierSegment { from: pts[0], ctrl1: pts[1], ctrl2: pts[2], to: pts[3] };
+            let tol: S = gen_tol(rng, size_of(&pts));
+            args.t("c").u(S::BITS as u64).p(c.from).p(c.ctrl1).p(c.ctrl2).p(c.to).f(tol);
+            chk_cubic(c, tol)
+        } else {
+            let pts: Vec<Point<S>> = quad_points(rng, sh);
+            let q = QuadraticBezierSegment { from: pts[0], ctrl: pts[1], to: pts[2] };
+            let tol: S = gen_tol(rng, size_of(&pts));
+            args.t("q").u(S::BITS as u64).p(q.from).p(q.ctrl).p(q.to).f(tol);
+            chk_quad(q, tol)
+        };
+        let tag = res.tag.clone();
+        (args, tag, move || {
+            let mut o = Out::new();
+            o.t(&res.imp);
+            (CaseOut { imp: o, orcl: res.orcl }, res.check)
+        })
+    });
+}
+
 fn main() {
     let mut ctx = Ctx::from_args("C09");
     witness_cases(&mut ctx);
@@ -1299,6 +1530,15 @@ fn main() {
         path_case(&mut ctx, true);
     }
     guard_cases(&mut ctx);
+    // exact checker family (ids after everything else): a sample in the quick tier, as many as the
+    // sampled families in the thorough tier
+    let m = ctx.n(250, 30000);
+    for _ in 0..m {
+        chk_case::<f32>(&mut ctx, false);
+        chk_case::<f64>(&mut ctx, false);
+        chk_case::<f32>(&mut ctx, true);
+        chk_case::<f64>(&mut ctx, true);
+    }
     ctx.finish();
 }
 
